@@ -130,6 +130,63 @@ def live_worker(args):
     return viol, dict(stats), inconc, closers
 
 
+def nonza_part(V, stats):
+    """stream-level elements (no stanzas) in every phase of a session: stream errors without / with an unknown / a misplaced condition, SASL, SASL 2,
+    STARTTLS, stream-management and Bind 2 answers nobody asked for or with broken attributes. The client may ignore them or close the stream;
+    it must not die or hang, and an established session must either end or still answer a ping"""
+    import wire
+    ST, SA, S2, TL, SM = "urn:ietf:params:xml:ns:xmpp-streams", wire.NS_SASL, "urn:xmpp:sasl:2", "urn:ietf:params:xml:ns:xmpp-tls", wire.NS_SM
+    N = ["<stream:error/>", "<stream:error><quota-exceeded xmlns='%s'/></stream:error>" % ST, "<stream:error><host-unknown xmlns='urn:example:wrong'/></stream:error>",
+         "<stream:error><text xmlns='%s'>only a text</text></stream:error>" % ST, "<stream:error><see-other-host xmlns='%s'/></stream:error>" % ST,
+         "<stream:error><see-other-host xmlns='%s'>:::no:host:::</see-other-host></stream:error>" % ST, "<stream:error><see-other-host xmlns='%s'>[::1</see-other-host></stream:error>" % ST,
+         "<stream:error><see-other-host xmlns='%s'>host.example:99999999</see-other-host></stream:error>" % ST,
+         "<stream:error><conflict xmlns='%s'/><conflict xmlns='%s'/><text xmlns='%s'/><x xmlns='urn:example:app'/></stream:error>" % (ST, ST, ST),
+         "<stream:features/>", "<stream:features><unknown xmlns='urn:example:x'/><mechanisms xmlns='%s'/></stream:features>" % SA,
+         "<success xmlns='%s'/>" % SA, "<success xmlns='%s'>!!!</success>" % SA, "<failure xmlns='%s'/>" % SA, "<failure xmlns='%s'><no-such-condition/><text/></failure>" % SA, "<challenge xmlns='%s'>!!!</challenge>" % SA, "<challenge xmlns='%s'/>" % SA,
+         "<success xmlns='%s'/>" % S2, "<success xmlns='%s'><authorization-identifier/></success>" % S2, "<failure xmlns='%s'/>" % S2, "<continue xmlns='%s'/>" % S2, "<continue xmlns='%s'><tasks/></continue>" % S2, "<challenge xmlns='%s'/>" % S2,
+         "<proceed xmlns='%s'/>" % TL, "<failure xmlns='%s'/>" % TL,
+         "<enabled xmlns='%s'/>" % SM, "<enabled xmlns='%s' resume='maybe' max='x' id=''/>" % SM, "<resumed xmlns='%s'/>" % SM, "<resumed xmlns='%s' h='x' previd=''/>" % SM, "<resumed xmlns='%s' h='4294967297' previd='nope'/>" % SM,
+         "<failed xmlns='%s'/>" % SM, "<failed xmlns='%s' h='-1'><x xmlns='urn:example:x'/></failed>" % SM, "<a xmlns='%s'/>" % SM, "<a xmlns='%s' h='garbage'/>" % SM, "<a xmlns='%s' h='4294967296'/>" % SM, "<a xmlns='%s' h='-5'/>" % SM, "<r xmlns='%s'/>" % SM,
+         "<bound xmlns='urn:xmpp:bind:0'/>", "<unknown xmlns='urn:example:nonza'><deep><deeper/></deep></unknown>", "<message xmlns='urn:example:not-jabber-client'><body>x</body></message>", "<iq xmlns='jabber:server' type='get' id='x'><ping xmlns='urn:xmpp:ping'/></iq>"]
+    cases, metas = [], []
+    for x in N:
+        for phase in ("established", "established-sm", "after-features", "instead-of-success", "after-restart"):
+            if phase.startswith("established"):
+                st = [wire.client(managers=LIVE_MANAGERS)] + wire.login_sasl(sm=phase.endswith("sm"), resumable=True, roster=True) + [dict(op="wait_signal", name="connected"), wire.S(x), dict(op="fence", optional=True, timeout=1500)]
+            else:
+                st = [wire.client(), dict(op="connect"), wire.A("stream:stream"), wire.S(wire.hdr("n1") + wire.features(wire.f_mechs(), wire.F_SM))]
+                if phase == "after-features":
+                    st += [wire.S(x)]
+                else:
+                    st += [wire.A("auth", optional=True, timeout=800)]
+                    if phase == "instead-of-success":
+                        st += [wire.S(x)]
+                    else:
+                        st += [wire.S("<success xmlns='%s'/>" % SA, restart=True), wire.A("stream:stream", optional=True, timeout=800), wire.S(wire.hdr("n1b")), wire.S(x)]
+                st += [dict(op="settle", quiet=40)]
+            st += [dict(op="query", tag="end")]
+            cases.append(dict(steps=st, timeout=4000, stopOnStall=False, watchdog=25))
+            metas.append((x, phase))
+    outs, crashes = wire.run_cases(vf.build_harness("wire"), cases)
+    for rq, info in crashes:
+        m = metas[rq["n"]] if rq.get("n") is not None and rq["n"] < len(metas) else ("?", "?")
+        V.violation("live crash " + vf.crash_sig(info), "sanitizer report / abnormal exit of a client after one well-formed stream-level element (%s)" % m[1], {"element": m[0], "phase": m[1], "stderr": info["stderr"][-3000:]})
+    for out, (x, phase) in zip(outs, metas):
+        if not out:
+            continue
+        stats["stream_level_elements_sent"] += 1
+        j = out["journal"]
+        if phase.startswith("established"):
+            fenced = any(e["ev"] == "fence_done" for e in j)
+            gone = any(e["ev"] == "cli_sig" and e["name"] == "disconnected" for e in j) or any(e["ev"] == "srv_peer_closed" for e in j)
+            if fenced:
+                stats["stream_level_ignored_session_alive"] += 1
+            elif gone:
+                stats["stream_level_session_closed"] += 1
+            else:
+                V.violation("live client-unresponsive stream-level", "a connected client neither answers a ping nor disconnects after one well-formed stream-level element", {"element": x, "phase": phase})
+
+
 def live_half(V, tier, binary):
     import collections
     n = 6000 if tier == "quick" else 120000
@@ -153,6 +210,7 @@ def live_half(V, tier, binary):
             V.inconc(i)
         stats.update(st)
         closers += cl
+    nonza_part(V, stats)
     out = dict(stats)
     out.pop("closers_sample", None)
     out["sample_of_stanzas_after_which_the_client_closes_the_stream (not judged: IQs without a valid type)"] = closers[:6]
@@ -215,6 +273,6 @@ def main(tier, replay=None):
            "memcheck_sample": dict(mc, rule="the codec workload (other cases than the ASan run) and the setter-built objects of C01 on an uninstrumented -O1 build under valgrind memcheck: any uninitialised-value use or invalid access is a violation"),
            "connected_client": dict(live, rule="mutated stanzas (same mutators; payload seeds wrapped into message/presence/iq of every type; from/to rewritten to own/server/contact/room addresses half of the time) sent by the scripted server to a logged-in "
                                               "QXmppClient with %d managers under ASan/UBSan, 20 per ping fence; a failed batch is re-run stanza by stanza in fresh sessions" % (len(LIVE_MANAGERS) + 4))}
-    floors = {"applications": apps > 1000, "parsers_reached": (len(never) == 0) if tier != "quick" else (len(never) <= 0.1 * len(parsers)), "all_operators_used": len(ops) == 18, "memcheck_ran": mc.get("memcheck_parser_applications", 0) > 100 and mc.get("memcheck_setter_field_states", 0) > 100, "live_stanzas_survived": live.get("stanzas_survived", 0) >= 0.8 * max(1, live.get("stanzas_sent", 0))}
+    floors = {"applications": apps > 1000, "parsers_reached": (len(never) == 0) if tier != "quick" else (len(never) <= 0.1 * len(parsers)), "all_operators_used": len(ops) == 18, "memcheck_ran": mc.get("memcheck_parser_applications", 0) > 100 and mc.get("memcheck_setter_field_states", 0) > 100, "live_stanzas_survived": live.get("stanzas_survived", 0) >= 0.8 * max(1, live.get("stanzas_sent", 0)), "stream_level_elements": live.get("stream_level_elements_sent", 0) >= 150}
     V.finish(cov, "exploration", ["Qt's XML reader/writer and DOM are trusted (well-formedness is judged with them)", "nesting depth <= 2000 and text <= 1 MiB",
                                   "uninitialised reads are covered only by the memcheck sample (quick: ~400 mutated elements + one pass over the setter-built objects)"], floors)
